@@ -94,7 +94,7 @@ def check_strings(strings, res, tag, strict_sniffers=False, complete_docs=False)
             res["nontrivial"].add(s if len(s) < 300 else (tag, len(s), hash(s)))
         if any(ord(c) > 127 for c in s[:2000]):
             bump(dist, tag + "_strings_with_non_ascii")
-        if ok != 1:
+        if ok[0] != 1:
             raised = isinstance(df, Err)
             res["violations"].append({
                 "kind": ("detect-raises" if raised and s else "empty-not-no-captions" if not s else "detect-inconsistent"),
@@ -103,7 +103,7 @@ def check_strings(strings, res, tag, strict_sniffers=False, complete_docs=False)
                 "input": s, "stream": tag, "impl_obs": [pds, pdf], "replay": "detect"})
             continue
         mds, mdf = model_plain(m)
-        if s and any(isinstance(d, Err) for d in ds):
+        if s and ok[1] != 1:
             bump(dist, "info_sniffer_raises_where_detect_format_does_not_consult_it")
         if not s:
             if mds != pds:
@@ -153,6 +153,9 @@ EARLIER = {"DFXP": [], "MicroDVD": ["</tt>"], "WebVTT": ["</tt>"], "SAMI": ["</t
            "SRT": ["</tt>", "WEBVTT", "<sami"], "SCC": ["</tt>", "WEBVTT", "<sami"]}
 OTHER_MARKER_TEXTS = ["WEBVTT", "<sami>", "<SAMI>", "Scenarist_SCC V1.0", "{1}{2}", "{1}{2}hi", "</tt>", "</TT>",
                       "1\n00:00:01,000 --> 00:00:02,000", "a --> b", "x</tt>y", "webvtt", "<sam\u0130"]
+# not markers, but one character away from one: in the domain, must not disturb detection
+NEAR_MARKER_TEXTS = ["</tt", "/tt>", "</t t>", "<tt>", "WEBVT", "EBVTT", "WEB VTT", "<sam", "sami", "< sami", "->", "-- >",
+                     "Scenarist_SCC V1.", "{1}{", "{1}2}", "</tt\n>"]
 INNER_BREAKS = ["a\nb", "a\n\nb", "a\rb", "a\r\nb", "a\x0bb", "a\x0cb", "a\x85b", "a\u2028b", "a\u2029b", "\nx", "x\n"]
 FIRST_LANGUAGE_ONLY = ("WebVTT", "SCC")
 LANG_NAMES = ["en-US", "fr", "de", "pt-BR", "zh-Hans", "und"]
@@ -203,8 +206,10 @@ def gen_text(rng, name, flavour):
         if r < 0.5:
             return "".join(rng.choice(cs) for _ in range(rng.randint(1, 40))).strip() or "x"
         return "".join(rng.choice("abcdefghij KLMNOP.,!?'-0123456789") for _ in range(rng.randint(1, 70))).strip() or "x"
-    if r < 0.12:
+    if r < 0.09:
         return rng.choice(OTHER_MARKER_TEXTS)
+    if r < 0.14:
+        return rng.choice(NEAR_MARKER_TEXTS)
     if r < 0.2:
         return rng.choice(INNER_BREAKS)
     if r < 0.23:
@@ -344,7 +349,7 @@ def judge_own(fmt, cs, info, res, docs_out=None):
         bump(dist, "D_out_of_domain_no_visible_text(not judged)")
         return
     if docs_out is not None:
-        docs_out.append(doc)
+        docs_out.append((name, doc))
     bump(dist, "D_judged_" + name)
     bump(dist, "D_doc_chars_max_" + name, max(0, len(doc) - dist.get("D_doc_chars_max_" + name, 0)))
     det = impl.call(lambda: pycaption.detect_format(doc))
@@ -358,7 +363,7 @@ def judge_own(fmt, cs, info, res, docs_out=None):
         return
     shape = classify_failure(name, doc, det, rd)
     v = {"kind": "own-output-not-recognised:" + shape, "fmt": name, "shape": shape, "det": det_name(det),
-         "read_err": rd.code if isinstance(rd, Err) else None,
+         "read_err": rd.code if isinstance(rd, Err) else None, "first_language_empty": bool(info["empty_first"]),
          "what": f"{name} writer output detected as {det_name(det)}"
                  + (f", {R.__name__}.read raised {impl.ERR_NAMES.get(rd.code, rd.code)}" if isinstance(rd, Err) else ""),
          "input": gens.describe_capset(cs) if info["ncaps"] <= 8 else "(%d captions)" % info["ncaps"],
@@ -427,9 +432,81 @@ def random_strings(ctx):
     return out
 
 
+# ------------------------------------------------------------------------------------------------ stream F
+def shape_request(name, doc):
+    """parse a writer output into the pieces of the document shape of spec/SpecOwn.v (untrusted: the oracle
+    re-assembles the document from the pieces and the harness compares it with the real one)"""
+    if name == "SRT":
+        blocks = (doc + "\n").split("\n\n")
+        if blocks[-1] != "":
+            return None
+        cues = []
+        for b in blocks[:-1]:
+            lines = b.split("\n")
+            if len(lines) < 2:
+                return None
+            cues.append([lines[1], "\n".join(lines[2:])])
+        return (2002, [4, cues]) if cues else None
+    if name == "MicroDVD":
+        lines = doc.split("\n")
+        if lines[-1] != "":
+            return None
+        cues = []
+        for l in lines[:-1]:
+            m = re.match(r"(\{[^{}]*\}\{[^{}]*\})(.*)\Z", l, re.S)
+            if not m:
+                return None
+            cues.append([m.group(1), m.group(2)])
+        if not cues:
+            return None
+        m = re.match(r"\{([^{}]*)\}\{([^{}]*)\}\Z", cues[0][0])
+        return (2002, [1, [m.group(1), m.group(2), cues[0][1], cues[1:]]])
+    if name == "WebVTT":
+        if not doc.startswith("WEBVTT\n\n"):
+            return None
+        return (2002, [2, doc[len("WEBVTT\n\n"):].split("\n")])
+    if name == "SCC":
+        head = "Scenarist_SCC V1.0\n\n"
+        if not doc.startswith(head):
+            return None
+        return (2002, [5, doc[len(head):]])
+    return None
+
+
+def run_shapes(res, judged):
+    """judged: (format name, document) of every in-domain writer output of stream D.  Each one that is an INSTANCE of
+    the theorem's document shape with true hypotheses is covered by C20_own_output_<fmt>: the model then predicts its
+    own format, and the implementation must agree (alarm level)."""
+    dist = res["distribution"]
+    reqs, items = [], []
+    for name, doc in judged:
+        if name in ("DFXP", "SAMI"):
+            continue
+        rq = shape_request(name, doc)
+        if rq is None:
+            bump(dist, "F_not_parsed_as_shape_" + name)
+            continue
+        reqs.append(rq)
+        items.append((name, doc))
+    for (name, doc), r in zip(items, oracle_batch(reqs)):
+        res["evaluations"] += 1
+        if r == [-1] or r[0] != doc:
+            bump(dist, "F_not_an_instance_of_the_shape_" + name)
+            continue
+        if r[1] != 1:
+            bump(dist, "F_instance_but_hypotheses_false_" + name)
+            continue
+        bump(dist, "F_instances_covered_by_theorem_" + name)
+        det = call_fast(lambda: pycaption.detect_format(doc))
+        want = dict((n, rd) for n, _, rd in WRITERS)[name]
+        if not (isinstance(det, Ok) and det.v is want):
+            res["disagreements"].append({"input": doc[:2000], "stream": "F", "what": "document is an instance of the "
+                                         "own-output theorem for %s but the implementation detects %s" % (name, det_name(det))})
+
+
 def run(ctx):
     res = {"evaluations": 0, "nontrivial": set(), "violations": [], "disagreements": [], "distribution": {},
-           "streams": 5, "notes": []}
+           "streams": 6, "notes": []}
     dist = res["distribution"]
     rng = ctx.rng
     # E: marker boundary cases (sniffer-level, alarm level)
@@ -463,8 +540,11 @@ def run(ctx):
     dist["C_longest"] = max(len(s) for s in rs)
     check_strings(rs, res, "C")
     # D: own output (collects the complete documents for B)
-    docs = []
-    run_own_output(ctx, res, ctx.n(240, 6000), docs)
+    judged = []
+    run_own_output(ctx, res, ctx.n(240, 6000), judged)
+    docs = [d for _, d in judged]
+    # F: writer outputs as instances of the own-output theorems
+    run_shapes(res, judged)
     # B: complete documents + truncations
     rng.shuffle(docs)
     small = [d for d in docs if len(d) < 1500][:ctx.n(12, 60)]
@@ -510,7 +590,7 @@ def replay(ctx, rec):
         s = rec["input"]
         ds, df = observe(s)
         ok = oracle1(2001, [len(s) > 0, ds, df])
-        return ok != 1, [plain_ds(ds), plain_df(df)]
+        return ok[0] != 1, [plain_ds(ds), plain_df(df)]
     if rec.get("replay") == "own":
         doc = rec["document"]
         name = rec["fmt"]
